@@ -13,6 +13,9 @@ CHECKS = {
  "C02": ("bounded-exhaustive enumeration of terminal-position nestings x recursion topology x argument style x iteration counts; three differential relations between configurations of the real interpreter",
          "every sequence of up to 2 (quick) / 3 (thorough) of the 15 terminal positions x {self, 2-cycle, 3-cycle} x {accumulator, &rest, &key} x {defun, labels} x error modes, every blocking boundary (running macro body, handler-bind, ignore-errors, nested load) and non-tail position inserted at every level, for iteration counts up to 1000; checked: transparency (value, output, condition identical with elimination on, off via a dormant debugger, and with a profiler), constant stack (maximal stack height over every evaluation step EQUAL for N=10,100,1000), never collapsed (exactly N blocker frames at the base case, innermost handler catches)",
          "no expected values: relations between runs of the real interpreter; stack height is sampled at every evaluation step through the per-step context; depth-3 shapes run N=1000 in fewer configurations (recorded in bounds)"),
+ "C03": ("bounded-exhaustive enumeration of byte strings, token sequences and registry-driven application tables (two-level value closure, cyclic and deep values into every callable x position), executed in isolated worker subprocesses",
+         "every byte string of length <=2 loaded under limits and read by four readers, every 3-byte string (thorough) / every 3-byte string over lexer-class representatives (quick) read with no limits, every token sequence up to the length bound read and loaded, 44 depth-generator programs x depths, every registered callable (247: functions, operators, macros of 12 packages) x arities 0..max+1 x argument tuples over a 71-value level-0 alphabet, a level-1/level-2 alphabet of one representative per (producing callable, result kind) placed in every position of every callable, 10 cyclic-container constructions and 9 deep-value generators fed to every callable x position; oracle per execution: it returns, the result is not an internal panic, the worker process survives, under a CPU-time watchdog",
+         "all execution happens in worker subprocesses (4 GiB address-space limit, 60 s CPU watchdog per batch, progress file for attribution, 5x re-confirmation in fresh workers); which ordinary error or value a call answers is unspecified"),
  "C04": ("exhaustive fault-space sweep (every step budget, every cancellation index, every height/nesting/tail/macro limit) over a bounded program grammar, with per-step invariants",
          "for every program of the limit grammar up to a node bound the complete fault space is enumerated: budget n for every n in 1..N+1, cancellation at every step, every physical-height and nesting limit up to the observed maximum+2, tail-iteration and macro-expansion limits; checked: exact-prefix rule on the probe trace, identical outcome when the budget suffices, bound never exceeded at any step, ordinary error, refill across all 12 entry points, runtime usable afterwards",
          "steps are observed through Runtime.Steps(); the per-step monitor is a custom context.Context whose Err() the evaluator calls once per step; sleep cancellation uses a 30 s watchdog on a 30 min sleep"),
@@ -22,6 +25,9 @@ CHECKS = {
  "C06": ("bounded-exhaustive enumeration of the condition-handling grammar against the definitional reference interpreter",
          "every term of the handler-bind / ignore-errors / rethrow / error / host-panic grammar up to a node bound (errors and host panics at every position of bodies, handler expressions and handlers; every specifier kind and binding order) is evaluated by the reference (which implements the statement literally) and by the real interpreter; value, condition and transcript must agree",
          "handler expressions are assumed to be evaluated when the error arrives (documentation silent); system errors carry an opaque message string as data"),
+ "C07": ("bounded-exhaustive enumeration of macro definitions x call sites x argument tuples (metamorphic: call vs eval of macroexpand, vs an expansion model), complete quasiquote template grammars against a reference expander, BFS over gensym histories",
+         "(A) macro definitions over 7 formals shapes x 9 body families, defined by defmacro and macrolet, x argument tuples x call-site contexts: (m args) must equal (eval (macroexpand '(m args))) in the same lexical context and the context with a Go-predicted expansion inlined; macroexpand-1 equals the model expansion; macroexpand equals macroexpand-1 iterated; argument forms run exactly as often as the expansion mentions them; (B) every quasiquote template of four complete grammars (depth <=3, width <=3, quote levels 0..2, unquote / unquote-splicing at every position) compared as typed trees with a 40-line reference expander; (C) BFS over histories of <=6 gensym / defmacro / read operations: all gensyms pairwise distinct and distinct from every symbol the lexer produces from the program text",
+         "the expansion model and the reference template expander are the trusted base; a quoted or top-level splice and a splice of a non-list are unspecified"),
  "C08": ("explicit-state BFS over package-operation histories against a package-table reference model",
          "breadth-first search over histories of package operations (in-package, export, use-package, set, set!, defun, defmacro, qualified/unqualified/keyword references, lexical shadowing, nested and failing load-string, attempts to bind true/false/keywords in every scope kind); every successor is replayed on a fresh real runtime; after every operation the value class, current package and the FULL package table read back through the registry API are compared with a Go model of the statement; states de-duplicated by the canonical model table",
          "the reference model is the trusted base; values of set!/defun/defmacro are compared by class only"),
